@@ -3,6 +3,7 @@ CONSTANTS
   Sessions = {"M1"}
   Legacy = {}
   InitOn = {"M1"}
+  InitSub = {}
   Kinds = {"tools"}
   NotifOf <- NotifStd
   Uris = {"u1"}
